@@ -471,3 +471,82 @@ func VariationsOf(base *wire.N, encode func(*wire.N) []wire.Mark, seed int64, ke
 		}
 	}
 }
+
+// PairVariations yields, for a base tree, every tree that differs from it in two fields adjacent on
+// the wire (consecutive value/bytes fields of the field map), each set to {0, all-ones, pattern}: the
+// "two deviations from base" level. A carry, a shift or a copy that runs from one field into its
+// neighbour shows as soon as the neighbour is not at its base value.
+func PairVariations(base *wire.N, encode func(*wire.N) []wire.Mark, f func(t *wire.N, what string)) {
+	work := base.Clone()
+	marks := encode(work)
+	type site struct {
+		node *wire.N
+		name string
+		w    int
+		role string
+		path string
+	}
+	var sites []site
+	seen := map[string]bool{}
+	for _, m := range marks {
+		if m.Node == nil || (m.Role != "value" && m.Role != "bytes") || m.W == 0 || m.W > 64 {
+			continue
+		}
+		key := fmt.Sprintf("%p.%s", m.Node, m.Name)
+		if seen[key] {
+			continue
+		}
+		seen[key] = true
+		sites = append(sites, site{m.Node, m.Name, m.W, m.Role, m.Path})
+	}
+	vals := func(s site) []func() {
+		var out []func()
+		if s.role == "value" {
+			all := ^uint64(0)
+			if s.w < 8 {
+				all = 1<<(8*uint(s.w)) - 1
+			}
+			for _, v := range []uint64{0, all, PatU(s.w, 9)} {
+				v := v
+				out = append(out, func() { s.node.U[s.name] = v })
+			}
+			return out
+		}
+		ones := make([]byte, s.w)
+		for i := range ones {
+			ones[i] = 0xff
+		}
+		for _, v := range [][]byte{make([]byte, s.w), ones, Pat(s.w, 9)} {
+			v := v
+			out = append(out, func() { s.node.B[s.name] = v })
+		}
+		return out
+	}
+	save := func(s site) func() {
+		if s.role == "value" {
+			old, had := s.node.U[s.name]
+			return func() {
+				if had {
+					s.node.U[s.name] = old
+				} else {
+					delete(s.node.U, s.name)
+				}
+			}
+		}
+		old := s.node.B[s.name]
+		return func() { s.node.B[s.name] = old }
+	}
+	for i := 0; i+1 < len(sites); i++ {
+		a, b := sites[i], sites[i+1]
+		ra, rb := save(a), save(b)
+		for ia, sa := range vals(a) {
+			for ib, sb := range vals(b) {
+				sa()
+				sb()
+				f(work.Clone(), fmt.Sprintf("%s and %s set to value %d / %d of {0, all-ones, pattern}", a.path, b.path, ia, ib))
+			}
+		}
+		ra()
+		rb()
+	}
+}
